@@ -44,6 +44,9 @@ props = {
    trusted=[T1,T2,T3,T4,T5,T6,T7]),
  "C14": dict(level="proof", claim="bitstream writer and reader: counters equal the sum of operation sizes at every step, byte view of buffer+sink is only appended to, push stores the word big-endian, closed streams refuse, Close pads to a byte and keeps Written(); bit-level content of WriteBits/ReadBits/WriteArray/ReadArray inside a word is not yet proved",
    explain="", trusted=[T1,T2,T4,T5,T6,T7,TG]),
+ "C16": dict(level="other", claim="the four clauses of the property are postconditions of the real NormalizeFrequencies (sum == scale, present symbols kept >= 1, absent symbols 0, alphabet strictly increasing and in range), discharged by SMT for all histograms; the sum clause carries a second disjunct (sum > scale and every entry <= 1) whose impossibility (256 entries <= 1 sum to at most 256 <= scale) is argued in DESIGN.md, not machine-checked",
+   explain="Contract on entropy.NormalizeFrequencies with six loop invariants (123 obligations). sum(a,lo,hi) is an uninterpreted function with the store lemma L1 and the empty-range axiom; the unfolding instances and the non-negativity of suffix sums are stated as assumptions (listed). Frequencies are assumed to stay below 2^60 inside the redistribution loops (machine arithmetic). Call sites (ANS, Range) are not under contract yet.",
+   trusted=[T1,T2,T5,T6,T7,"T8 lemmas about sum$: L1 store/point-update, empty range; assumed instances: left unfolding at the loop index, suffix sums of a non-negative array are non-negative"]),
  "C17": dict(level="proof", claim="lifecycle contracts of Writer, Reader and both bitstreams: Close idempotent, Write/Read after Close fail without side effects, Write returns the full length on success, counters monotone, successful Close leaves the bitstream closed with every accepted byte emitted",
    explain="", trusted=[T1,T2,T3,T4,T5,T6,T7,TG]),
 }
@@ -51,7 +54,6 @@ not_applicable = {
  "C12": "not claimed yet: entropy codec bodies are out of reach of the verifier (see DESIGN 3/C12); the bounded contract monitor is not built yet",
  "C13": "not claimed yet: transform bodies are out of reach of the verifier (see DESIGN 3/C13); the bounded contract monitor is not built yet",
  "C15": "not claimed yet: name tables with the SMT string theory are not under contract yet",
- "C16": "not claimed yet: NormalizeFrequencies contract (sum lemmas) not built yet",
  "C18": "data-race freedom of all library code under all schedules needs a permission logic and a heap-footprint analysis the WP generator does not have; a race detector over explored schedules is a different family (DESIGN section 4)",
  "C19": "not claimed yet: file-safety ordering obligations of the CLI not built yet",
 }
